@@ -26,6 +26,16 @@ def main(argv):
     print('check %s tier=%s repo=%s' % (pid, tier, os.environ.get('PXV_REPO', '/repo')))
     try:
         mod.run(ck)
+        if tier == 'thorough' and replay is None and not os.environ.get('PXV_NO_EVIDENCE'):
+            from . import selftest
+            res = selftest.run(pid)
+            det = [r for r in res if r[1] == 'detected']; sil = [r for r in res if r[1] == 'silent']
+            ck.note('self-test: %d mutants detected, %d benign edits silent, %d stale patches' % (len(det), len(sil), len([r for r in res if r[1] == 'stale'])))
+            ck.selftest = [dict(patch=os.path.relpath(r[0], os.path.dirname(os.path.dirname(os.path.abspath(__file__)))), verdict=r[1], report=r[2]) for r in res]
+            for r in res:
+                print('  self-test %-11s %s %s' % (r[1], os.path.basename(r[0]), r[2][:120]))
+                if r[1] in ('missed', 'false-alarm'):
+                    ck.broken.append('self-test: %s %s (%s)' % (r[1], os.path.basename(r[0]), r[2]))
         return ck.finish()
     except AnalysisBroken as e:
         print('ANALYSIS-BROKEN property=%s %s' % (pid, e))
